@@ -376,6 +376,8 @@ pub fn run_level_b(
     let mut harness_notes: Vec<String> = Vec::new();
     let mut foreign_requests = 0usize;
     let mut symlinks = 0usize;
+    let mut git_exclude_used = false;
+    let mut decoy_git_file = false;
 
     // ---- the tree (creation order from the plan)
     let n_renames = world
@@ -471,7 +473,11 @@ pub fn run_level_b(
         }
     }
     if !world.gitignore.is_empty() {
-        write_file(&root, ".gitignore", &(world.gitignore.join("\n") + "\n"));
+        // ignore rules live in a checked-in .gitignore or in the clone-local .git/info/exclude
+        let local_exclude = plan.create_seed % 3 == 1;
+        let target = if local_exclude { ".git/info/exclude" } else { ".gitignore" };
+        write_file(&root, target, &(world.gitignore.join("\n") + "\n"));
+        git_exclude_used = local_exclude;
     }
     for s in &world.scripts {
         let _ = lua::write_script(&root, s, &BTreeMap::new(), &plan.lua_busy, 0);
@@ -529,6 +535,15 @@ pub fn run_level_b(
         }
     };
 
+    // a `.git` *file* (as in a submodule or linked worktree) in the start directory is not a
+    // repository root; only done without ignore rules, whose reach such a boundary could change
+    {
+        let cwd_rel = effective_cwd(world);
+        if !cwd_rel.is_empty() && world.gitignore.is_empty() && plan.create_seed % 5 < 2 {
+            write_file(&root, &format!("{cwd_rel}/.git"), "gitdir: /nonexistent/modules/decoy\n");
+            decoy_git_file = true;
+        }
+    }
     // ---- the process
     let cwd_rel = effective_cwd(world);
     let cwd = if cwd_rel.is_empty() { root.clone() } else { root.join(&cwd_rel) };
@@ -683,12 +698,18 @@ pub fn run_level_b(
         if symlinks > 0 {
             *m.entry("runs_with_symlinked_files".to_string()).or_default() += 1;
         }
+        if git_exclude_used {
+            *m.entry("runs_with_rules_in_git_info_exclude".to_string()).or_default() += 1;
+        }
+        if decoy_git_file {
+            *m.entry("runs_with_git_file_in_start_dir".to_string()).or_default() += 1;
+        }
     }
     let mut v = serde_json::to_value(&rr).unwrap_or_default();
     v["level_b"] = serde_json::json!({
         "exit_code": exit_code, "stdout": tail(&stdout_s), "stderr": tail(&stderr_s),
         "cwd": cwd_rel, "cores": cores, "workers": plan.workers.max(1), "git_diff": git_diff.is_some(),
-        "stdin": stdin_text, "harness_notes": harness_notes.clone(), "foreign_requests_ignored": foreign_requests, "symlinked_files": symlinks,
+        "stdin": stdin_text, "harness_notes": harness_notes.clone(), "foreign_requests_ignored": foreign_requests, "symlinked_files": symlinks, "ignore_rules_in_git_info_exclude": git_exclude_used, "decoy_git_file_in_start_dir": decoy_git_file,
     });
     let _ = std::fs::remove_dir_all(&base);
     ChildReport {
